@@ -127,7 +127,37 @@ def _origin_of(exc):
     return 'tdda' if saw_tdda else 'harness'
 
 
+class CaseTimeout(BaseException):
+    pass
+
+
+def _on_alarm(signum, frame):
+    raise CaseTimeout()
+
+
+CASE_TIMEOUT_S = int(os.environ.get('VERIF_CASE_TIMEOUT_S', '300') or 300)
+
+
 def safe_run_case(check, case):
+    import signal
+    old = signal.signal(signal.SIGALRM, _on_alarm)
+    signal.alarm(CASE_TIMEOUT_S)
+    try:
+        return _safe_run_case(check, case)
+    except CaseTimeout:
+        r = Res()
+        r.ev()
+        r.nontrivial = True
+        r.out('timeout')
+        r.viol('timeout', 'terminates',
+               {'note': 'case did not finish within %d s' % CASE_TIMEOUT_S})
+        return r, None
+    finally:
+        signal.alarm(0)
+        signal.signal(signal.SIGALRM, old)
+
+
+def _safe_run_case(check, case):
     """Run one case; an exception escaping from tdda code (the driver did not
     expect it) is a violation of the property being checked ("internal
     error"), an exception from the harness itself is a harness error."""
@@ -137,7 +167,7 @@ def safe_run_case(check, case):
             r = Res()
         return r, None
     except BaseException as e:       # includes SystemExit from tdda code
-        if isinstance(e, KeyboardInterrupt):
+        if isinstance(e, (KeyboardInterrupt, CaseTimeout)):
             raise
         origin = _origin_of(e)
         tbtxt = ''.join(traceback.format_exception(type(e), e,
@@ -342,9 +372,17 @@ def explore(pid, tier, nworkers=None, budget_s=None, only_layers=None,
                     layers_capped.append('%s@hashseed%d' % (lname, hs))
                     continue
                 tl = time.time()
-                parts = pool.map(_worker_layer,
-                                 [(lname, r, nworkers, deadline, max_viol)
-                                  for r in range(nworkers)])
+                limit = max(1800.0, 3.0 * budget_s) if budget_s else 7200.0
+                try:
+                    parts = pool.map_async(
+                        _worker_layer,
+                        [(lname, r, nworkers, deadline, max_viol)
+                         for r in range(nworkers)], chunksize=1).get(limit)
+                except multiprocessing.TimeoutError:
+                    print('HARNESS-ERROR: layer %s did not finish within %d s '
+                          '(worker died or hung)' % (lname, limit))
+                    pool.terminate()
+                    return 2
                 complete = all(p['complete'] for p in parts)
                 lc = collections.Counter()
                 for p in parts:
@@ -389,7 +427,7 @@ def explore(pid, tier, nworkers=None, budget_s=None, only_layers=None,
         else:
             new_sigs.append(sig)
     os.makedirs(os.path.join(REPLAY_DIR, pid), exist_ok=True)
-    for sig in new_sigs[:12]:
+    for sig in new_sigs[:8]:
         v = by_sig[sig][0]
         want = sorted(set((x['sig'], x['clause']) for x in violations
                           if _case_key(x['case']) == _case_key(v['case'])))
@@ -416,9 +454,9 @@ def explore(pid, tier, nworkers=None, budget_s=None, only_layers=None,
         print('  detail=%s' % json.dumps(v['detail'], default=str,
                                          ensure_ascii=False)[:600])
         status = max(status, 1)
-    if len(new_sigs) > 12:
+    if len(new_sigs) > 8:
         print('(%d further new violation signatures not written out)'
-              % (len(new_sigs) - 12))
+              % (len(new_sigs) - 8))
     for he in harness_errors[:3]:
         print('HARNESS-ERROR: exception in harness code\n case=%s\n%s'
               % (json.dumps(he['case'], default=str)[:400], he['traceback']))
